@@ -135,9 +135,9 @@ func runAPI(c Case) error {
 	var stages []*scheduler.Stage
 	for _, j := range c.Order {
 		st := &scheduler.Stage{Name: name(j), Task: task.FromCommands("true")}
-		for i := 0; i < c.N; i++ {
-			if adj[i][j] {
-				st.DependsOn = append(st.DependsOn, name(i))
+		for _, e := range c.Edges { // the order of the entries of depends_on is the order of Edges
+			if e[1] == j {
+				st.DependsOn = append(st.DependsOn, name(e[0]))
 			}
 		}
 		stages = append(stages, st)
@@ -192,9 +192,9 @@ func runCLI(c Case, dir string) error {
 	for _, j := range c.Order {
 		st := gen.Map{{K: "name", V: name(j)}, {K: "task", V: "t"}}
 		var deps gen.List
-		for i := 0; i < c.N; i++ {
-			if adj[i][j] {
-				deps = append(deps, name(i))
+		for _, e := range c.Edges {
+			if e[1] == j {
+				deps = append(deps, name(e[0]))
 			}
 		}
 		if len(deps) > 0 {
@@ -346,6 +346,9 @@ func genCase(rt *rapid.T, maxN int) Case {
 		return c.Edges[i][1] < c.Edges[j][1]
 	})
 	c.Order = rapid.Permutation(seq(n)).Draw(rt, "order")
+	if rapid.Bool().Draw(rt, "shuffle-depends_on-entries") && len(c.Edges) > 1 {
+		c.Edges = rapid.Permutation(c.Edges).Draw(rt, "edge-order")
+	}
 	return c
 }
 
